@@ -152,7 +152,8 @@ Inductive diag :=
 | DInterp (e : ierr)     (* "invalid substitution, ..." from interpolate.c *)
 | DNotFound              (* "<name>: step script not found" *)
 | DExec                  (* the child's err(1, "%s", command[0]) after execvp failed *)
-| DExited (n : Z).       (* "process group exited <n>" *)
+| DExited (n : Z)        (* "process group exited <n>" *)
+| DGroupFail.            (* "process group failure": the fork handshake timed out, see [run_fork] *)
 
 Record runres := mkrun {
   rr_argv : option (list bytes);   (* what was handed to execvp, if anything *)
@@ -264,6 +265,50 @@ Definition hook_run (m : emode) (cv : cfgview) (vs : list bytes) (execok : list 
           match interp_args hook_drop_empty (alookup (env_list cv extra false)) l with
           | RErr e => HFail 1 (HInterp e)
           | ROk argv => if execok argv then HExec argv else HFail 1 HExecFail
+          end
+      end
+  end.
+
+(* ---- the runner over any lookup function ------------------------------------------------
+   [resolve] only uses the configuration view through the lookup function
+   [env_of cv trace] and the step list; [resolve_env] is the same code with the
+   two made explicit (resolve_env_eq in ArgvProofs.v), so that it can be run on
+   the environment and the schedule of a PARSED configuration (Exec/SchedBridge.v). *)
+Definition resolve_env (checked : bool) (env : bytes -> option bytes) (steps : list stepdef) (name : bytes) : resolved :=
+  match interp_steps env steps with
+  | RErr e => if checked then RNone [DInterp e; DNotFound] else RCrash
+  | ROk sched =>
+      match find_step name sched with
+      | Some argv => RArgv argv
+      | None => RNone [DNotFound]
+      end
+  end.
+
+(* ---- the fork handshake -------------------------------------------------------------------
+   step_fork: the child announces its process group by closing its end of a
+   pipe after setsid(); the parent polls that pipe for about one second
+   (waiteof(proc_pipe[0], 1000)).  [HsLate]: the child did not get that far in
+   time - the parent prints "process group failure", waits for the child all
+   the same and returns the decoded status, or 1 when that is 0. *)
+Inductive handshake := HsOk | HsLate.
+
+Definition run_fork (checked : bool) (cv : cfgview) (trace : bool) (name : bytes)
+    (kern : list bytes -> kres) (gotsig : Z) (hs : handshake) : outcome :=
+  match hs with
+  | HsOk => run_with checked cv trace name kern gotsig
+  | HsLate =>
+      match resolve checked cv trace name with
+      | RCrash => Crash
+      | RNone d => Exited (mkrun None notfound_exit d)
+      | RArgv argv =>
+          let k := kern argv in
+          (* exitstatus(status, 0): gotsig is not consulted on this path, no alarm has been armed yet *)
+          match exit_of_wait (child_status k) 0 with
+          | None => Crash
+          | Some v =>
+              let v' := if (v =? 0)%Z then 1%Z else v in
+              (* step_exec returns step_fork's error at once: no "process group exited" line *)
+              Exited (mkrun (Some argv) v' (DGroupFail :: match k with KNoExec => [DExec] | KWait _ => [] end))
           end
       end
   end.
